@@ -288,6 +288,37 @@ def f8(ctx, rid):
         raise core.AnchorLost('delete_in_active call with an ok edge: %d' % n)
 
 
+def f9(ctx, rid):
+    """the position a record is written at is the position its index entry records: appends reserve their offset from the
+    in-memory size counter (advanced before the write, never rolled back) and write positionally, so no file of the io layer may be
+    opened with O_APPEND - on such a descriptor pwrite ignores the offset and appends at the real end of file, and after one failed
+    or short append every later acknowledged record of that file lies elsewhere than its index entry says"""
+    prog = ctx.prog
+    n = 0
+    bad = 0
+    for f in prog.fns.values():
+        if not f.file.startswith('src/io/'):
+            continue
+        for c in f.calls:
+            if 'OpenOptions' not in c.path or c.bb not in f.reachable():
+                continue
+            if c.name in ('read', 'write', 'create', 'truncate', 'create_new', 'append'):
+                n += 1
+            if c.name == 'append':
+                k = core.op_const(c.args[1]) if len(c.args) > 1 else None
+                val = None
+                if k is not None:
+                    val = k.get('int', k.get('bool'))
+                if k is not None and val in (0, False, 'false'):
+                    continue
+                bad += 1
+                ctx.bad(rid, 'no-o-append|%s' % prog.fns[f.id].root, c.where(), 'a file of the io layer is opened with append(true): positional writes at reserved offsets are silently turned into appends at the real end of file; after one failed / short append to a re-opened blob every later acknowledged record is written at another position than its index entry points to and cannot be read back')
+    if n < 4:
+        raise core.AnchorLost('OpenOptions configuration calls in src/io: %d' % n)
+    if not bad:
+        ctx.ok(rid, 'no-o-append|scan', '', '%d OpenOptions configuration calls in src/io, none sets O_APPEND' % n, queries=n)
+
+
 RULES = [
     Rule('C11.X3', 'no err-exit is reachable between a move-out of shared state and its hand-back', x3, 4),
     Rule('C11.L1', 'an error while handling a worker message never ends the maintenance loop (C13.L1 instances)', l1, 4),
@@ -296,5 +327,6 @@ RULES = [
     Rule('C11.F5', 'a record header reaches the index only on the ok edge of its append', f5, 2),
     Rule('C11.F7', 'boolean request-pending / in-progress flags are released on every path including error exits (C12.S8 instances)', f7, 1),
     Rule('C11.F8', 'once the tombstone is in the active blob the delete cannot be reported as failed', f8, 1),
+    Rule('C11.F9', 'no file of the io layer is opened with O_APPEND (positional writes at reserved offsets must be honoured)', f9, 1),
     Rule('C11.F6', 'an index file cut short by a failed dump is never trusted: written flag set in a second phase, extent checked at open (C03.I8/I5 instances)', f6, 2),
 ]
